@@ -376,7 +376,7 @@ func runC10(p *an.Prog, r *an.Run, tier string) {
 					}
 				}
 			}
-			if fn.Name() == "ReadMessage" {
+			if fn.Name() == "ReadMessage" || onlyCalledFromReadMessage(p, fn) {
 				for _, f := range w.Fields {
 					if t := structOfFieldAccess(f); t != nil {
 						if fv := an.FieldOf(f); fv != nil && c10ReaderState[fieldKey(t, fv)] {
@@ -884,4 +884,23 @@ func shallowCopyOfShared(p *an.Prog, sc *Scope, fn *ssa.Function, root ssa.Value
 		}
 	}
 	return false
+}
+
+// onlyCalledFromReadMessage: fn is a helper of a codec's ReadMessage (every static call site is in a ReadMessage of
+// the same receiver type, and fn is never used as a value), so it runs on the connection's single reader goroutine.
+func onlyCalledFromReadMessage(p *an.Prog, fn *ssa.Function) bool {
+	if fn.Signature.Recv() == nil || p.IsAddressTaken(fn) {
+		return false
+	}
+	sites := p.StaticSites(fn)
+	if len(sites) == 0 {
+		return false
+	}
+	for _, s := range sites {
+		c := s.Parent()
+		if c.Name() != "ReadMessage" || c.Signature.Recv() == nil || !types.Identical(c.Signature.Recv().Type(), fn.Signature.Recv().Type()) {
+			return false
+		}
+	}
+	return true
 }
